@@ -585,6 +585,14 @@ func (w *watch) update(dirErrors map[string]error, removed ...string) bool {
 		return true
 	}
 
+	// mark removed directories first, so that one which has already been
+	// recreated gets monitored again right below
+	for _, dir = range removed {
+		w.tracked[dir] = false
+		dirErrors[dir] = errors.New("directory removed")
+		update = true
+	}
+
 	for dir, ok = range w.tracked {
 		if ok {
 			continue
@@ -599,12 +607,6 @@ func (w *watch) update(dirErrors map[string]error, removed ...string) bool {
 			w.tracked[dir] = false
 			dirErrors[dir] = fmt.Errorf("failed to monitor for changes: %w", err)
 		}
-	}
-
-	for _, dir = range removed {
-		w.tracked[dir] = false
-		dirErrors[dir] = errors.New("directory removed")
-		update = true
 	}
 
 	return update
